@@ -4,7 +4,7 @@
    transaction took from the free list return). The committed view cannot change without the switch
    step (C02_uncommitted_invisible). rollback_exact: for every sequence of data allocations and frees the
    rollback restores the allocator exactly (as a set of free pages + all markers and counters). *)
-From VF Require Import Region Freelist Alloc RegionProofs AllocProofs TxAllocProofs MetaAllocProofs OverflowProofs.
+From VF Require Import Region Freelist Alloc RegionProofs AllocProofs TxAllocProofs MetaAllocProofs OverflowProofs HistoryProofs CommitFailProofs.
 From Coq Require Import Lia.
 
 Theorem C07_area_rollback : forall ar x,
@@ -149,6 +149,25 @@ Theorem C07_rollback_after_overflow_growth : forall a0 p count ok a t,
   avail (a_free (data r)) = avail (a_free (data a0)).
 Proof. exact rollback_after_overflow_growth. Qed.
 Print Assumptions C07_rollback_after_overflow_growth.
+
+(* "Commit returning an error": a commit that fails after its allocation step (fileCommitPrepare, release of the
+   old free-list pages, fileCommitAlloc have run) and is rolled back leaves nothing of the commit preparation in the
+   allocator, for every state a transaction can reach *)
+Theorem C07_failed_commit_exact : forall a0 p a t extra r,
+  Inv0 a0 -> treach a0 p a t -> metaTotal a < 2^28 ->
+  commit_n a (if tx_updated t then meta_free_regions t (flPages a) else t) < 2^28 ->
+  (forall a' t', treach a0 p a' t' -> a_end (meta a') - a_end (data a0) < 2^32) ->
+  commit_fail_step a t extra = CoOk r ->
+  maxPages r = maxPages a0 /\ pageSize r = pageSize a0 /\ flRoot r = flRoot a0 /\ flPages r = flPages a0 /\
+  metaTotal r = metaTotal a0 /\
+  a_end (meta r) = a_end (meta a0) /\ wff 2 (a_free (meta r)) /\
+  (forall id, inl id (fregions (a_free (meta r))) <-> inl id (fregions (a_free (meta a0)))) /\
+  avail (a_free (meta r)) = avail (a_free (meta a0)) /\
+  a_end (data r) = a_end (data a0) /\ wff 2 (a_free (data r)) /\
+  (forall id, inl id (fregions (a_free (data r))) <-> inl id (fregions (a_free (data a0)))) /\
+  avail (a_free (data r)) = avail (a_free (data a0)).
+Proof. exact commit_fail_exact. Qed.
+Print Assumptions C07_failed_commit_exact.
 
 From VF Require Import TxCore TxCoreProofs.
 Theorem C07_aborted_tx_invisible : forall (V : Type) (s : fstate V) (fresh0 : list Z),
